@@ -16,7 +16,8 @@ ASSUME = [
     "concurrently outstanding inbound requests = shown to the responder's user and not yet answered / rejected by it",
     "requests shorter than 19 bytes cannot carry a nonce; scripts contain at most one such request per size and "
     "direction, and they are matched by sender and payload digest",
-    "TLC bounds: 1-2 responders, up to 3 requests, at most 2 connections in total, one cancel; the environment is the "
+    "TLC bounds: ReqRespMC 1 requester, 1-2 responders, up to 3 requests, at most 2 connections in total, one cancel; "
+    "ReqRespBoundMC (responder side) 2-3 requesters x 2-3 requests, bound 1-2; the environment is the "
     "connection manager's guarantees (C05/C07/C08): one outcome per dial, established/closed in order, a requested "
     "substream is reported at most once and never after its connection was reported closed",
 ]
@@ -39,8 +40,29 @@ def mc_configs(ctx):
              MC_LINES + ["SYMMETRY Sym"])]
 
 
+B_LINES = ["SPECIFICATION BSpec", "INVARIANTS BMonOK BBoundOK", "CHECK_DEADLOCK FALSE"]
+
+
+def bound_configs(ctx):
+    """responder side with several requester peers (ReqRespBoundMC)"""
+    cfgs = [("bound1-2requesters-2req", dict(Requesters={1, 2}, K=2, Bound=1, PerPeer=False)),
+            ("bound2-3requesters-2req", dict(Requesters={1, 2, 3}, K=2, Bound=2, PerPeer=False))]
+    if not ctx.quick():
+        cfgs.append(("bound2-2requesters-3req", dict(Requesters={1, 2}, K=3, Bound=2, PerPeer=False)))
+        cfgs.append(("bound1-3requesters-2req", dict(Requesters={1, 2, 3}, K=2, Bound=1, PerPeer=False)))
+    return cfgs
+
+
 def mc_runs(ctx):
     out = []
+    for name, consts in bound_configs(ctx):
+        r = tlc_mc(ctx, "ReqRespBoundMC.tla", write_cfg(ctx, "mcb_%s.cfg" % name, consts, B_LINES), workers=8, timeout=1200)
+        if not r["ok"]:
+            raise ToolError("ReqRespBoundMC violates an invariant in config %s; the model must be corrected or the "
+                            "counterexample replayed:\n%s" % (name, r.get("error", r["out"][-3000:])))
+        out.append({k: r[k] for k in ("transitions", "distinct", "depth", "wall_s") if k in r})
+        out[-1]["cfg"] = name
+        log("MC %s: %s" % (name, out[-1]))
     for name, consts, lines in mc_configs(ctx):
         r = tlc_mc(ctx, "ReqRespMC.tla", write_cfg(ctx, "mc_%s.cfg" % name, consts, lines + MV), workers=8, timeout=2400)
         if not r["ok"]:
@@ -181,6 +203,13 @@ def selftest(ctx):
                workers=4, timeout=600, expect_violation=True)
     found = (not r["ok"]) and "QuiesceStrict is violated" in r["out"]
     log("selftest model: pending_dials as a one-slot map (code before e9eba69) vs QuiesceStrict -> %s" % ("violated (expected)" if found else "NOT violated"))
+    ok &= found
+    # responder side: the bound applied per remote peer instead of globally must break the monitor's bound rule
+    r = tlc_mc(ctx, "ReqRespBoundMC.tla", write_cfg(ctx, "negb.cfg", dict(Requesters={1, 2}, K=2, Bound=1, PerPeer=True), B_LINES),
+               workers=4, timeout=600, expect_violation=True)
+    found = (not r["ok"]) and "Invariant BMonOK is violated" in r["out"]
+    log("selftest model: inbound bound counted per requester peer (2 requesters x 2 requests, bound 1) -> %s" %
+        ("BMonOK violated (expected)" if found else "NOT violated"))
     ok &= found
     # mutated copies of the model: one guard / update removed
     muts = [
